@@ -133,7 +133,62 @@ def gen_cases(ctx):
         fmt = r.choice(["tum", "kitti"])
         c = {"kind": "text", "fmt": fmt, "variant": r.choice(["h", "p"]), "rw": r.choice(["h", "p"])}
         c.update(gen_traj(r, n) if fmt == "tum" else {"mats": gen_mats(r, n)})
+        if fmt == "tum" and r.random() < 0.12:          # L6: the writers accept unsorted / duplicate stamps
+            st = c["stamps"]
+            c["stamps"] = r.choice([st[::-1], st[:1] * len(st), r.sample(st, len(st))])
         yield c
+    # L5: structured pose counts
+    for n in ([1, 2, 3, 4, 7, 8, 9, 15, 16, 17, 31, 32, 33, 63, 64, 65, 127, 128, 129, 255, 256, 257, 511, 512, 513, 1023, 1024, 1025]
+              + ([4095, 4096, 4097, 65535, 65536, 65537] if th else [])):
+        fmt = r.choice(["tum", "kitti"])
+        c = {"kind": "text", "fmt": fmt, "variant": r.choice(["h", "p"]), "rw": r.choice(["h", "p"]), "sized": True}
+        c.update(gen_traj(r, n) if fmt == "tum" else {"mats": gen_mats(r, n)})
+        yield c
+    # L3: array flavours (int / float32 / non-contiguous / Fortran order / read-only / lists / views of one base) through every writer
+    for _ in range(260 if not th else 1500):
+        n = r.choice([1, 2, 3, 5, 9])
+        k = r.random()
+        if k < 0.4:
+            fmt = r.choice(["tum", "kitti"])
+            c = {"kind": "text", "fmt": fmt, "variant": r.choice(["h", "p"]), "rw": r.choice(["h", "p"])}
+            c.update(gen_flavoured(r, n) if fmt == "tum" else gen_flavoured_mats(r, n))
+        elif k < 0.6:
+            c = {"kind": "df", "type": r.choice(["tum", "kitti"])}
+            c.update(gen_flavoured(r, n))
+            if c["flavour"] == "int":
+                c["stamp_flavour"] = None       # an integer index makes df_to_trajectory return a path (documented observation, DESIGN 6)
+        elif k < 0.75:
+            c = {"kind": "bag", "frame": "map"}
+            c.update(gen_flavoured(r, n))
+            if c["flavour"] == "f32":
+                # float32 *timestamps* make write_bag_trajectory do its sec/nanosec arithmetic in float32 (several ns off): reported as a
+                # candidate finding (harness/corpus/C06/bag-stamp-float32.json), not generated until it is decided
+                c["stamp_flavour"] = None
+        else:
+            afl = r.choice(["int", "f32", "noncontig", "readonly", "fortran"])
+            arr = flavour_values(r, afl, 1, r.randint(1, 6))[0]
+            trajs = {"traj_est": {"type": "tum", **gen_flavoured(r, n)}}
+            if r.random() < 0.5:
+                trajs["path"] = {"type": "kitti", **gen_flavoured_mats(r, n)}
+            c = {"kind": "result", "variant": r.choice(["h", "p"]), "load_traj": True, "info": {"title": "flavours"}, "stats": {"rmse": hard_double(r)},
+                 "arrays": {"error_array": arr}, "array_flavour": afl, "trajs": trajs}
+        yield c
+    # L1: one object written twice, read back, the loaded object written again, read again
+    for _ in range(80 if not th else 400):
+        n = r.choice([1, 2, 5, 12])
+        fmt = r.choice(["tum", "kitti"])
+        c = {"kind": "reuse", "fmt": fmt}
+        c.update(gen_traj(r, n) if fmt == "tum" else {"mats": gen_mats(r, n)})
+        yield c
+    # L4: construction routes x pre-read caches (expected values from an identically built twin)
+    for _ in range(80 if not th else 400):
+        n = r.choice([1, 2, 4, 9])
+        t = gen_traj(r, n)
+        t["quat"] = [[q / math.sqrt(sum(v * v for v in qq)) for q in qq] for qq in
+                     [[r.gauss(0, 1) for _ in range(4)] for _ in range(len(t["stamps"]))]]
+        t["xyz"] = [[r.uniform(-1e3, 1e3) for _ in range(3)] for _ in t["stamps"]]
+        yield {"kind": "route", "built_from": r.choice(["xyz_quat", "poses"]), "write": r.choice(["tum", "kitti", "df", "zip"]),
+               "preread": r.sample(["positions_xyz", "orientations_quat_wxyz", "poses_se3", "check", "distances"], r.randint(0, 3)), **t}
     big = 6000 if not th else 100000
     c = {"kind": "text", "fmt": "tum", "variant": "p", "rw": "p", "big": True}
     c.update(gen_traj(r, big))
@@ -160,10 +215,12 @@ def gen_cases(ctx):
         yield {"kind": "result", "variant": r.choice(["h", "p"]), "load_traj": r.random() < 0.6, "info": info, "stats": statsd,
                "arrays": arrays, "trajs": trajs}
     tnames = ["traj_est", "traj_ref", "位置", "tr é", "a.b", ".hidden", "x.tum", "y.npy", "z.kitti", "名前 with space",
-              "emoji\U0001F600", "UPPER.TUM", "t.", "info.json", "stats"]
-    anames = ["error_array", "timestamps", "dist é", "a.npy", "b.tum", "seconds_from_start", "位置", "c.kitti", "info.json"]
+              "emoji\U0001F600", "UPPER.TUM", "t.", "info.json", "stats", "1e3", "-1", "traj_est ", " traj_est", "..", ".", "a..b", "CON", "*", "a\\b",
+              "traj_est.tum.tum", "0", "nan", "TRAJ_EST", "tab\there", "b.kitti.npy"]
+    anames = ["error_array", "timestamps", "dist é", "a.npy", "b.tum", "seconds_from_start", "位置", "c.kitti", "info.json", "1e3", "-1",
+              "error_array ", "..", "ERROR_ARRAY", "x.npz"]
     for _ in range(150 if not th else 600):
-        k = r.choice([2, 2, 3, 4])
+        k = r.choice([2, 3, 3, 4, 5])
         lens = sorted(r.sample([1, 2, 3, 4, 6, 9, 14, 20], k), reverse=True)
         if r.random() < 0.25:
             r.shuffle(lens)
@@ -171,8 +228,21 @@ def gen_cases(ctx):
         for name, n in zip(r.sample(tnames, k), lens):
             trajs[name] = {"type": "tum", **gen_traj(r, n)} if r.random() < 0.65 else {"type": "kitti", "mats": gen_mats(r, n)}
         arrays = {name: [hard_double(r) for _ in range(r.randint(1, 5))] for name in r.sample(anames, r.randint(1, 3))}
-        yield {"kind": "result", "variant": r.choice(["h", "p"]), "load_traj": r.random() < 0.85, "info": {"title": rand_string(r)},
-               "stats": {"rmse": hard_double(r)}, "arrays": arrays, "trajs": trajs, "multi": True}
+        base = {"kind": "result", "variant": r.choice(["h", "p"]), "load_traj": r.random() < 0.85, "info": {"title": rand_string(r)},
+                "stats": {"rmse": hard_double(r)}, "arrays": arrays, "trajs": trajs, "multi": True}
+        if r.random() < 0.3 and len(trajs) >= 2:        # L3/L9: one object stored under two names
+            names = list(trajs)
+            base["same_object"] = {names[-1]: names[0]}
+            trajs[names[-1]] = trajs[names[0]]
+        yield base
+        if r.random() < 0.35:                            # L9: the same names, inserted in the reverse order
+            rev = dict(base)
+            rev["trajs"] = dict(reversed(list(trajs.items())))
+            rev["arrays"] = dict(reversed(list(arrays.items())))
+            if "same_object" in base:
+                a, b = next(iter(base["same_object"].items()))
+                rev["same_object"] = {b: a}
+            yield rev
     for _ in range(250 if not th else 1000):
         n = r.choice([1, 2, 5, 40])
         c = {"kind": "df", "type": r.choice(["tum", "kitti"])}
@@ -216,7 +286,8 @@ def gen_cases(ctx):
             else:
                 a = r.uniform(0, 6.28)
                 sc = r.choice([1.0, 2.0, 0.5])
-                payload = {"store": r.choice(["npy", "txt"]),
+                payload = {"store": r.choice(["npy", "txt", "json"]), "json": json.dumps({"x": r.uniform(-9, 9), "y": r.uniform(-9, 9), "z": 0.5, "qx": 0.0, "qy": 0.0,
+                                                                                     "qz": math.sin(a / 2), "qw": math.cos(a / 2), "scale": sc}),
                            "mat": [[sc * math.cos(a), -sc * math.sin(a), 0.0, r.uniform(-9, 9)], [sc * math.sin(a), sc * math.cos(a), 0.0, r.uniform(-9, 9)],
                                    [0.0, 0.0, sc, r.uniform(-9, 9)], [0.0, 0.0, 0.0, 1.0]]}
             steps.append({"payload": payload, "save_spell": r.choice(["rel", "dot", "dotdot", "abs"]), "load_spell": r.choice(["rel", "dot", "dotdot", "abs"]),
@@ -257,14 +328,80 @@ def rand_rational(r):
 
 
 # ------------------------------------------------------------------ evo side
+FLAVOURS = ["int", "f32", "noncontig", "fortran", "readonly", "list", "alias"]
+
+
+def flav(a, fl):
+    """the same element values in another array flavour (L3); the case data already hold the exact float64 values"""
+    a = np.array(a, dtype=float)
+    if fl == "int":
+        return a.astype(np.int64)
+    if fl == "f32":
+        return a.astype(np.float32)
+    if fl == "noncontig":
+        base = np.full(tuple(2 * d for d in a.shape), 7.0)
+        view = base[tuple(slice(None, None, 2) for _ in a.shape)]
+        view[...] = a
+        return view
+    if fl == "fortran":
+        return np.asfortranarray(a)
+    if fl == "readonly":
+        a.setflags(write=False)
+        return a
+    if fl == "list":
+        return a.tolist()
+    if fl == "alias":           # rows are views of one base array holding all the data
+        base = np.concatenate([a.reshape(-1), a.reshape(-1)])
+        return base[:a.size].reshape(a.shape)
+    return a
+
+
 def mk_traj(c):
     from evo.core.trajectory import PoseTrajectory3D
-    return PoseTrajectory3D(np.array(c["xyz"], dtype=float), np.array(c["quat"], dtype=float), np.array(c["stamps"], dtype=float))
+    fl = c.get("flavour")
+    return PoseTrajectory3D(flav(c["xyz"], fl), flav(c["quat"], fl), flav(c["stamps"], c.get("stamp_flavour", fl)))
 
 
 def mk_path(c):
     from evo.core.trajectory import PosePath3D
-    return PosePath3D(poses_se3=[np.array(m + [[0.0, 0.0, 0.0, 1.0]], dtype=float) for m in c["mats"]])
+    fl = c.get("flavour")
+    if fl == "alias" and len({json.dumps(m) for m in c["mats"]}) == 1:
+        P = np.array(c["mats"][0] + [[0.0, 0.0, 0.0, 1.0]], dtype=float)
+        return PosePath3D(poses_se3=[P] * len(c["mats"]))            # one matrix object in every slot
+    fl = None if fl == "list" else fl
+    return PosePath3D(poses_se3=[flav(m + [[0.0, 0.0, 0.0, 1.0]], fl) for m in c["mats"]])
+
+
+def flavour_values(r, fl, n, role):
+    """element values that the flavour can hold exactly"""
+    if fl == "int":
+        return [[float(r.randint(-10 ** 6, 10 ** 6)) for _ in range(role)] for _ in range(n)]
+    if fl == "f32":
+        return [[float(np.float32(r.choice([r.uniform(-100, 100), hard_double(r) % 1e30, 0.1, 1 / 3, 16777217.0]))) for _ in range(role)] for _ in range(n)]
+    return [[hard_double(r) for _ in range(role)] for _ in range(n)]
+
+
+def gen_flavoured(r, n):
+    fl = r.choice(FLAVOURS)
+    if fl == "int":
+        st = sorted(float(v) for v in r.sample(range(0, 10 ** 6), n))
+    elif fl == "f32":
+        st = sorted(set(float(np.float32(r.uniform(0, 5000))) for _ in range(n)))
+    else:
+        st = stamps(r, n)
+    n = len(st)
+    return {"flavour": fl, "stamps": st, "xyz": flavour_values(r, fl, n, 3), "quat": flavour_values(r, fl, n, 4)}
+
+
+def gen_flavoured_mats(r, n):
+    fl = r.choice([f for f in FLAVOURS if f != "list"])
+    if fl == "alias":
+        m = gen_mats(r, 1)[0]
+        return {"flavour": fl, "mats": [m] * n}
+    if fl in ("int", "f32"):
+        vals = flavour_values(r, fl, n, 12)
+        return {"flavour": fl, "mats": [[v[0:4], v[4:8], v[8:12]] for v in vals]}
+    return {"flavour": fl, "mats": gen_mats(r, n)}
 
 
 def traj_bits(obj):
@@ -320,18 +457,26 @@ def impl_text(c):
     return {"status": "ok", "text": text, "back": traj_bits(back)}
 
 
-@guarded
-def impl_result(c):
-    from evo.tools import file_interface as fi
+def result_of(c):
     from evo.core import result
     res = result.Result()
     for k, v in c["info"].items():
         res.add_info({k: v})
     res.add_stats(dict(c["stats"]))
     for k, v in c["arrays"].items():
-        res.add_np_array(k, np.array(v, dtype=float))
+        res.add_np_array(k, np.asarray(flav(v, c.get("array_flavour"))))
+    built = {}
     for k, t in c["trajs"].items():
-        res.add_trajectory(k, mk_traj(t) if t["type"] == "tum" else mk_path(t))
+        src = c.get("same_object", {}).get(k)
+        built[k] = built[src] if src in built else (mk_traj(t) if t["type"] == "tum" else mk_path(t))
+        res.add_trajectory(k, built[k])
+    return res
+
+
+@guarded
+def impl_result(c):
+    from evo.tools import file_interface as fi
+    res = result_of(c)
     if c["variant"] == "h":
         buf = io.BytesIO()
         fi.save_res_file(buf, res)
@@ -399,19 +544,6 @@ def impl_bag(c):
     return {"status": "ok", "back": traj_bits(back), "frame": back.meta.get("frame_id"), "hdr": hdr}
 
 
-def result_of(c):
-    from evo.core import result
-    res = result.Result()
-    for k, v in c["info"].items():
-        res.add_info({k: v})
-    res.add_stats(dict(c["stats"]))
-    for k, v in c["arrays"].items():
-        res.add_np_array(k, np.array(v, dtype=float))
-    for k, t in c["trajs"].items():
-        res.add_trajectory(k, mk_traj(t) if t["type"] == "tum" else mk_path(t))
-    return res
-
-
 def result_seen(back):
     return {"info": back.info, "stats": {k: tf.bits(v) for k, v in back.stats.items()},
             "arrays": {k: [str(a.dtype), list(a.shape), [tf.bits(v) for v in a.flatten()]] for k, a in back.np_arrays.items()},
@@ -465,6 +597,15 @@ def impl_history(c):
                 seen.append([strip_lens(traj_bits(fi.read_euroc_csv_trajectory(pload)))])
             else:
                 a = np.array(pl["mat"], dtype=float)
+                if pl["store"] == "json":
+                    with open(ps, "w") as fh:
+                        fh.write(pl["json"])
+                    twin = os.path.join(d, "twin_%d_%d.json" % (NHIST, len(seen)))      # same content under a name never seen before
+                    with open(twin, "w") as fh:
+                        fh.write(pl["json"])
+                    seen.append([[[tf.bits(v) for v in row] for row in fi.load_transform(pload)],
+                                 [[tf.bits(v) for v in row] for row in fi.load_transform(twin)]])
+                    continue
                 if pl["store"] == "npy":
                     with open(ps, "wb") as fh:
                         np.save(fh, a)
@@ -487,9 +628,81 @@ def history_want(c):
         elif c["target"] == "euroc":
             ref = tf.ref_read("euroc", pl["text"], True)
             out.append([{"type": "tum", "rows": [[tf.bits(v) for v in row] for row in ref]}])
+        elif pl.get("store") == "json":
+            out.append(None)            # expected = what the twin file gives (second entry of the step)
         else:
             out.append([[[tf.bits(v) for v in row] for row in pl["mat"]]])
     return out
+
+
+@guarded
+def impl_reuse(c):
+    """L1: the same object written twice; the loaded object written again"""
+    from evo.tools import file_interface as fi
+    tum = c["fmt"] == "tum"
+    obj = mk_traj(c) if tum else mk_path(c)
+    wr = fi.write_tum_trajectory_file if tum else fi.write_kitti_poses_file
+    rd = fi.read_tum_trajectory_file if tum else fi.read_kitti_poses_file
+    b1 = io.StringIO()
+    wr(b1, obj)
+    p = os.path.join(tmpdir(), "reuse_%d.txt" % id(obj))
+    wr(p, obj)
+    with open(p, "rb") as fh:
+        t2 = fh.read().decode("utf-8")
+    os.remove(p)
+    back = rd(io.StringIO(b1.getvalue()))
+    first = traj_bits(back)
+    b3 = io.StringIO()
+    wr(b3, back)
+    again = traj_bits(rd(io.StringIO(b3.getvalue())))
+    b4 = io.StringIO()
+    wr(b4, obj)                     # the original object once more, after everything else
+    return {"status": "ok", "t1": b1.getvalue(), "same12": b1.getvalue() == t2, "same13": b1.getvalue() == b3.getvalue(),
+            "same14": b1.getvalue() == b4.getvalue(), "first": first, "again": again}
+
+
+def build_route(c):
+    from evo.core.trajectory import PoseTrajectory3D
+    xyz, quat, st = np.array(c["xyz"], dtype=float), np.array(c["quat"], dtype=float), np.array(c["stamps"], dtype=float)
+    t = PoseTrajectory3D(xyz, quat, st)
+    if c["built_from"] == "poses":
+        t = PoseTrajectory3D(poses_se3=[np.array(p) for p in t.poses_se3], timestamps=st)
+    return t
+
+
+@guarded
+def impl_route(c):
+    """L4: object under test A (with the caches of the history materialised) and an identically built twin B for the expected values"""
+    from evo.tools import file_interface as fi
+    from evo.tools import pandas_bridge as pb
+    from evo.core import result
+    A, B = build_route(c), build_route(c)
+    for name in c["preread"]:
+        if name == "check":
+            A.check()
+        else:
+            getattr(A, name)
+    if c["write"] == "tum":
+        buf = io.StringIO()
+        fi.write_tum_trajectory_file(buf, A)
+        back = traj_bits(fi.read_tum_trajectory_file(io.StringIO(buf.getvalue())))
+        want = traj_bits(B)
+    elif c["write"] == "kitti":
+        buf = io.StringIO()
+        fi.write_kitti_poses_file(buf, A)
+        back = traj_bits(fi.read_kitti_poses_file(io.StringIO(buf.getvalue())))
+        want = {"type": "kitti", "rows": [[tf.bits(v) for v in np.asarray(p).flatten()] for p in B.poses_se3]}
+    elif c["write"] == "df":
+        back = traj_bits(pb.df_to_trajectory(pb.trajectory_to_df(A)))
+        want = traj_bits(B)
+    else:
+        res = result.Result()
+        res.add_trajectory("t", A)
+        buf = io.BytesIO()
+        fi.save_res_file(buf, res)
+        back = traj_bits(fi.load_res_file(io.BytesIO(buf.getvalue()), load_trajectories=True).trajectories["t"])
+        want = traj_bits(B)
+    return {"status": "ok", "back": strip_lens(back), "want": strip_lens(want)}
 
 
 def impl_bagstamps(c):
@@ -519,6 +732,10 @@ def run_impl(c):
         return impl_bagstamps(c)
     if k == "history":
         return impl_history(c)
+    if k == "reuse":
+        return impl_reuse(c)
+    if k == "route":
+        return impl_route(c)
     return {"status": "ok", "out": [tf.bits(n / d) if abs(Fraction(n, d)) < tf.F64_MAX + Fraction(2 ** 970) else "inf" for n, d in c["qs"]]}
 
 
@@ -575,6 +792,8 @@ def model_lines(c, impl):
         for i in range(n):
             vals += ([c["stamps"][i]] if c["type"] == "tum" else []) + c["xyz"][i] + c["quat"][i]
         return ["C06 df %s %d %s" % ("t" if c["type"] == "tum" else "p", n, " ".join(rat(v) for v in vals))]
+    if k == "reuse":
+        return text_lines(c["fmt"], impl["t1"], want_bits(c)["rows"])
     if k == "bag" or k == "bagstamps":
         return [f"C06 bag {rat(s)}" for s in c["stamps"]]
     if k == "rne":
@@ -627,6 +846,10 @@ def judge_text_model(ctx, case, what, fmt, outs, want_rows, text):
 def judge(ctx, c, impl, outs):
     k = c["kind"]
     ctx.count("dist", k + ":" + c.get("fmt", c.get("type", "")) + ":" + c.get("variant", "") + c.get("rw", ""))
+    if c.get("flavour") or c.get("array_flavour"):
+        ctx.count("branch", "flavour:%s:%s" % (k, c.get("flavour") or c.get("array_flavour")))
+    if c.get("sized"):
+        ctx.count("branch", "structured-size")
     if impl.get("status") != "ok":
         ctx.fail(c, "writer-or-reader-crashed", f"{impl.get('status')}: {impl.get('msg')}")
         ctx.record(c, True)
@@ -643,9 +866,27 @@ def judge(ctx, c, impl, outs):
         judge_df(ctx, c, impl, outs)
     elif k == "bag":
         judge_bag(ctx, c, impl, outs)
+    elif k == "reuse":
+        for flag, what in (("same12", "second write of the same object (path) differs from the first (handle)"),
+                           ("same14", "the same object written again after it was read back differs"),
+                           ("same13", "re-writing the loaded trajectory gives another text")):
+            if not impl[flag]:
+                ctx.fail(c, "object-reuse", what)
+        cmp_traj(ctx, c, "first read", want_bits(c), impl["first"])
+        cmp_traj(ctx, c, "read of the re-written loaded object", want_bits(c), impl["again"], clause="object-reuse")
+        judge_text_model(ctx, c, "reused object", c["fmt"], outs, want_bits(c)["rows"], impl["t1"])
+        ctx.count("branch", "reuse:" + c["fmt"])
+        ctx.record(c, True)
+    elif k == "route":
+        if impl["back"] != impl["want"]:
+            ctx.fail(c, "construction-route", f"built from {c['built_from']}, pre-read {c['preread']}, via {c['write']}: what comes back differs from an identically built, untouched twin")
+        ctx.count("branch", f"route:{c['built_from']}:{c['write']}")
+        ctx.record(c, bool(c["preread"]))
     elif k == "history":
         want = history_want(c)
         for i, (w, g, st) in enumerate(zip(want, impl["seen"], c["steps"])):
+            if w is None:
+                w, g = [g[1]], [g[0]]
             for j, (ww, gg) in enumerate(zip(w, g)):
                 if ww != gg:
                     what = [kk for kk in ww if ww[kk] != gg.get(kk)] if isinstance(ww, dict) and isinstance(gg, dict) else "values"
@@ -689,7 +930,8 @@ def judge_result(ctx, c, impl, outs):
     else:
         for k, v in c["arrays"].items():
             a = impl["arrays"][k]
-            if a["dtype"] != "float64" or a["shape"] != [len(v)] or a["bits"] != [tf.bits(x) for x in v]:
+            want_dtype = {"int": "int64", "f32": "float32"}.get(c.get("array_flavour"), "float64")
+            if a["dtype"] != want_dtype or a["shape"] != [len(v)] or a["bits"] != [tf.bits(x) for x in v]:
                 ctx.fail(c, "lossless-arrays", f"array {k}: dtype {a['dtype']} shape {a['shape']}, or values differ")
     if c["load_traj"]:
         if set(impl["trajs"]) != set(c["trajs"]):
@@ -834,7 +1076,10 @@ def evaluate(ctx, cases):
         lines += ls
     outs = core.run_driver(lines, prop="C06")
     for c, im, (a, b) in zip(cases, impls, spans):
-        judge(ctx, c, im, outs[a:b])
+        try:
+            judge(ctx, c, im, outs[a:b])
+        except Exception as e:  # noqa  (L12: never a tool error)
+            ctx.fail(c, "output-cannot-be-judged", f"{type(e).__name__}: {str(e)[:160]} on what evo returned: {str(im)[:200]}")
 
 
 def shrink(case):
